@@ -106,6 +106,7 @@ def run(repo, rep):
     rule_validity(repo, rep, aa, gen, api)
     rule_siblings(repo, rep, aa, gen, api)
     rule_roles(repo, rep, aa)
+    rule_round4(repo, rep)
 
 
 # ------------------------------------------------------------------ b, c
@@ -340,7 +341,21 @@ def rule_validity(repo, rep, aa, gen, api):
         ob = [s for s in ast.walk(q) if isinstance(s, ast.Assign) and norm(s.targets[0]) == "ofm_block"]
         ok = ok and len(ob) == 1 and norm(ob[0].value) == "config.ofm_block"
     rep.check(ok, "C15-a", f"{API}:npu_find_block_configs", "a configuration is offered only if try_block_config returned it, as NpuShape3D(height, width, depth) of config.ofm_block", "")
-    rep.floor("C15-a", 10)
+    # ... and only configurations found by this call: every return hands back the list built here from this call's arguments;
+    # a process-wide memo keyed by a digest of the operation offers configurations computed for a different operation whenever
+    # the key omits something try_block_config looks at (activation LUT, accumulator type, layouts, rounding ...)
+    rets = [r for r in walk_no_nested(q) if isinstance(r, ast.Return)]
+    init = [s_ for s_ in walk_no_nested(q) if isinstance(s_, ast.Assign) and norm(s_.targets[0]) == "valid_block_configs"]
+    fresh = len(init) == 1 and str(norm(init[0].value)) in ("[]", "list()")
+    rep.check(fresh and bool(rets) and all(r.value is not None and str(norm(r.value)) in ("valid_block_configs", "list(valid_block_configs)") for r in rets), "C15-a", f"{API}:npu_find_block_configs",
+              "every return offers the list this call built (starting empty) from try_block_config results", f"returns {[str(norm(r.value))[:60] if r.value is not None else 'None' for r in rets]}")
+    mod_stores = {str(norm(t_)) for st in api.tree.body if isinstance(st, (ast.Assign, ast.AnnAssign)) for t_ in (st.targets if isinstance(st, ast.Assign) else [st.target])
+                  if isinstance(t_, ast.Name) and st.value is not None and (isinstance(st.value, (ast.Dict, ast.List, ast.Set)) or (isinstance(st.value, ast.Call) and (call_name(st.value) or "").split(".")[-1] in ("dict", "list", "set", "defaultdict", "OrderedDict", "lru_cache")))}
+    used = sorted({x.id for x in ast.walk(q) if isinstance(x, ast.Name) and x.id in mod_stores})
+    deco = [str(norm(d_)) for d_ in q.decorator_list]
+    rep.check(not used and not any("cache" in d_ for d_ in deco), "C15-a", f"{API}:npu_find_block_configs", "the query keeps no results between calls (no module-level store, no memo decorator)",
+              f"uses process-wide {used or deco}: results are replayed for operations that only share the memo key")
+    rep.floor("C15-a", 12)
 
 
 # ------------------------------------------------------------------ d
@@ -513,3 +528,33 @@ def rule_roles(repo, rep, aa):
                 rep.check(norm(k) == norm(v.slice), "C15-c", f"ethosu/vela/architecture_features.py:{af.qualname_of(fnn) if fnn else '<module>'}", f"granule table entry {norm(k)} reads {norm(v.value)}[{norm(k)}]",
                           f"reads {norm(v)}: the {norm(k)} partition is rounded to another element type's bank granule")
     rep.floor("C15-e", 40)
+
+
+def rule_round4(repo, rep):
+    """Scheduler and command-stream generator agree on what a scalar second operand is; IFM extent rounding [shared with C10-d]."""
+    # The generator validates the scheduler's block with uses_scalar = (ifm2_scalar is not None), and ifm2_scalar is set iff
+    # the tensor's shape is [] (rank 0). The scheduler chose the block with its own uses_scalar: it has to be the same
+    # predicate, otherwise the block was sized without an IFM2 partition that the generator then asks for (a [1,1,1,1]
+    # operand is a broadcast feature map in SHRAM, not a register scalar).
+    hl = repo.mod("high_level_command_to_npu_op")
+    ce = hl.func("create_npu_elementwise_op")
+    sc = [st for st in ast.walk(ce) if isinstance(st, ast.Assign) and str(norm(st.targets[0])) == "npu_op.ifm2_scalar"]
+    if len(sc) != 1:
+        raise AnalysisError("create_npu_elementwise_op: assignment of npu_op.ifm2_scalar not found")
+    guard = [i_ for i_ in ast.walk(ce) if isinstance(i_, ast.If) and any(x is sc[0] for x in i_.body)]
+    gtxt = str(norm(guard[0].test)) if guard else ""
+    rep.check(gtxt in ("cmd.ifm2_tensor.shape == []", "[] == cmd.ifm2_tensor.shape"), "C15-d", "ethosu/vela/high_level_command_to_npu_op.py:create_npu_elementwise_op",
+              "ifm2_scalar is set iff the second operand has rank 0 (shape == [])", gtxt)
+    so = repo.mod("scheduler").func("SchedulerOperation.__init__")
+    us = [st for st in ast.walk(so) if isinstance(st, ast.Assign) and str(norm(st.targets[0])) == "self.uses_scalar"]
+    if len(us) != 1:
+        raise AnalysisError("SchedulerOperation.__init__: uses_scalar not found")
+    tests = [c_ for c_ in ast.walk(us[0].value) if isinstance(c_, ast.Compare) and not (len(c_.ops) == 1 and isinstance(c_.ops[0], (ast.Is, ast.IsNot)))]
+    attrs = [a_ for a_ in ast.walk(us[0].value) if isinstance(a_, ast.Call)]
+    ok = bool(tests) and all(len(c_.ops) == 1 and isinstance(c_.ops[0], ast.Eq) and {str(norm(c_.left)).rsplit(".", 1)[-1], str(norm(c_.comparators[0]))} == {"shape", "[]"} for c_ in tests) and not attrs
+    rep.check(ok, "C15-d", "ethosu/vela/scheduler.py:SchedulerOperation.__init__", "the scheduler's uses_scalar is the generator's predicate: an operand of rank 0 (shape == [])",
+              f"`{str(norm(us[0].value))[:110]}`: a one-element tensor of rank > 0 is treated as a scalar when the block is chosen, but the generator emits it as a broadcast IFM2 and "
+              "re-validates the block with uses_scalar = False (IFM2 partition missing: assertion in get_arch_block_config)")
+    from . import c10
+
+    rep.run_borrowed(c10, {"C10-d": "C15-e"}, repo)
